@@ -284,6 +284,13 @@ impl<'a, D: DependencyProvider> Encoder<'a, D> {
             .or_default()
             .push((requirement, clause_id));
 
+        // The clause only conflicts with the current decisions if the requiring solvable
+        // has actually been selected. For a solvable that is still undecided (encoded
+        // eagerly because its dependencies were cheaply available) the clause merely
+        // rules that solvable out.
+        let conflict =
+            conflict && self.state.decision_tracker.assigned_value(variable) == Some(true);
+
         if conflict {
             self.conflicting_clauses.push(clause_id);
         } else if no_candidates {
@@ -383,8 +390,9 @@ impl<'a, D: DependencyProvider> Encoder<'a, D> {
                 .watches
                 .start_watching(watched_literals, clause_id);
 
-            // Mark conflicting clauses
-            if conflict {
+            // Mark conflicting clauses. As for requirements, the clause of a solvable
+            // that has not been selected (yet) does not conflict with anything.
+            if conflict && self.state.decision_tracker.assigned_value(variable) == Some(true) {
                 self.conflicting_clauses.push(clause_id);
             }
         }
